@@ -142,8 +142,23 @@ class AliasClass:
             self.cfgs[key] = cfgm.CFG(f)
         return self.cfgs[key]
 
+    def is_range_test(self, f, e, pid):
+        """e is a pointer range test of the parameter (or its address) against the receiver's storage:
+        comparisons (<, <=, >, >=) joined by && / || whose operands mention the parameter and storage-derived pointers."""
+        e = strip(e)
+        if e.get('k') == 'bin' and e.get('op') in ('&&', '||'):
+            return self.is_range_test(f, e['x'], pid) and self.is_range_test(f, e['y'], pid)
+        if e.get('k') == 'bin' and e.get('op') in ('>=', '<=', '<', '>'):
+            has_p = any(w.get('k') == 'var' and w.get('id') == pid for w in walk_expr(e))
+            has_s = any((w.get('k') == 'mem' and w.get('f') in self.storage) or (w.get('k') == 'var' and w.get('vk') == 'local' and T(f, w.get('t')).get('ptr')) or
+                        (w.get('k') == 'call' and (w.get('pq') or '').split('::')[-1] in ('str', 'data')) for w in walk_expr(e))
+            return has_p and has_s
+        return False
+
     def alias_vars(self, f, pid):
-        """Locals computed from the address/value of the parameter compared with the receiver's storage (alias index idiom)."""
+        """Locals that record whether / where the parameter points into the receiver's storage, computed before any invalidation:
+        int form (index or offset, negative = does not alias):  cond ? idx : -1   or a helper call taking the parameter and a
+        storage pointer whose body returns a negative literal on some path;  bool form: the range test itself."""
         out = set()
         for s in ir.walk_stmts(f['body']):
             if s.get('k') != 'decl':
@@ -152,12 +167,23 @@ class AliasClass:
                 ini = v.get('init')
                 if ini is None:
                     continue
+                tv = T(f, v['t'])
+                if not tv.get('int') or tv.get('bool'):
+                    continue
                 has_p = any(w.get('k') == 'var' and w.get('id') == pid for w in walk_expr(ini))
-                cmp_storage = any(w.get('k') == 'bin' and w.get('op') in ('>=', '<=', '<', '>') for w in walk_expr(ini))
-                refs_storage = any((w.get('k') == 'mem' and w.get('f') in self.storage) or (w.get('k') == 'var' and w.get('vk') == 'local') or
-                                   (w.get('k') == 'call' and (w.get('pq') or '').split('::')[-1] in ('str', 'data')) for w in walk_expr(ini))
-                if has_p and cmp_storage and refs_storage and strip(ini).get('k') == 'cond':
+                if not has_p:
+                    continue
+                si = strip(ini)
+                if si.get('k') == 'cond' and (self.is_range_test(f, si['c'], pid) or self.is_range_test(f, q.expand(f, si['c'], bools_only=True), pid)):
                     out.add(v['id'])
+                elif si.get('k') == 'call' and si.get('fn') and not si.get('clsp'):
+                    refs_storage = any((w.get('k') == 'mem' and w.get('f') in self.storage) or (w.get('k') == 'call' and (w.get('pq') or '').split('::')[-1] in ('str', 'data')) or
+                                       (w.get('k') == 'var' and w.get('vk') == 'local' and T(f, w.get('t')).get('ptr')) for a in si.get('a', []) for w in walk_expr(a))
+                    helper = [g for g in self.prog.fn(si['fn'], si.get('sig')) if g.get('body')]
+                    neg = helper and any(st.get('k') == 'return' and (const_val(st.get('e')) or 0) < 0 for st in ir.walk_stmts(helper[0]['body']))
+                    cmpb = helper and any(w.get('k') == 'bin' and w.get('op') in ('<', '>', '<=', '>=') for w in fn_exprs(helper[0]))
+                    if refs_storage and neg and cmpb:
+                        out.add(v['id'])
         return out
 
     def analyse_member(self, f, pidx, callee_summaries):
@@ -209,21 +235,34 @@ class AliasClass:
             return st
 
         def edge(n, lab, st):
-            if n.kind == 'br' and lab in (True, False) and avars:
-                c = strip(n.e)
-                if c.get('k') == 'bin' and c.get('op') in ('<', '>=', '>', '<=', '==', '!='):
-                    x, y = strip(c['x']), strip(c['y'])
-                    v = None
-                    if x.get('k') == 'var' and x.get('id') in avars and const_val(c['y']) is not None:
-                        v, cst, op = x, const_val(c['y']), c['op']
-                    elif y.get('k') == 'var' and y.get('id') in avars and const_val(c['x']) is not None:
-                        v, cst, op = y, const_val(c['x']), {'<': '>', '>': '<', '<=': '>=', '>=': '<='}.get(c['op'], c['op'])
-                    if v is not None:
-                        def ev(val):
-                            return {'<': val < cst, '>': val > cst, '<=': val <= cst, '>=': val >= cst, '==': val == cst, '!=': val != cst}[op]
-                        noalias_truth = ev(-1)
-                        if ev(0) != noalias_truth and lab == noalias_truth:
-                            return 'safe'
+            if n.kind != 'br' or lab not in (True, False):
+                return st
+            c = strip(q.expand(f, n.e, bools_only=True))
+            # the range test itself (possibly through a named bool): the false edge means "does not alias"
+            neg = False
+            while c.get('k') == 'un' and c.get('op') == '!':
+                c = strip(c['e'])
+                neg = not neg
+            if self.is_range_test(f, c, pid):
+                noalias = True if neg else False
+                if lab == noalias:
+                    return 'safe'
+                return st
+            if c.get('k') == 'bin' and c.get('op') in ('<', '>=', '>', '<=', '==', '!=') and avars:
+                x, y = strip(c['x']), strip(c['y'])
+                v = None
+                if x.get('k') == 'var' and x.get('id') in avars and const_val(c['y']) is not None:
+                    v, cst, op = x, const_val(c['y']), c['op']
+                elif y.get('k') == 'var' and y.get('id') in avars and const_val(c['x']) is not None:
+                    v, cst, op = y, const_val(c['x']), {'<': '>', '>': '<', '<=': '>=', '>=': '<='}.get(c['op'], c['op'])
+                if v is not None:
+                    def ev(val):
+                        return {'<': val < cst, '>': val > cst, '<=': val <= cst, '>=': val >= cst, '==': val == cst, '!=': val != cst}[op]
+                    noalias_truth = ev(-1)
+                    if neg:
+                        noalias_truth = not noalias_truth
+                    if ev(0) != ev(-1) and lab == noalias_truth:
+                        return 'safe'
             return st
 
         reached, parent = cfgm.dataflow(cfg, 'fresh', step, edge)
